@@ -8,8 +8,7 @@ import json
 import logging
 
 from harness import vloop
-from harness.c01 import PROTO_CLASS
-from harness.c01_fake import make_session, settle
+from harness.c02_util import PROTO_CLASS, make_session, settle
 from harness.c02 import (_prepare, batch_oracle, classify_member, decode_entry, impl_text,
                          model_line, normalise_model, random_case, result_for, single_cases,
                          single_oracle)
